@@ -614,18 +614,21 @@ def main(argv=None):
             print("HARNESS-ERROR-DETAIL", h)
         print(f"HARNESS-ERROR property={prop_id} {len(ctx.harness_errors)} harness error(s)")
         return 2
-    min_eval = budget.get("min_evaluations", 1)
-    if ctx.evaluations < min_eval or len(ctx.nontrivial) < budget.get("min_nontrivial", 2):
-        if not ctx.budget_exhausted or ctx.evaluations == 0:
-            print(f"HARNESS-ERROR property={prop_id} too few cases: evaluations={ctx.evaluations} "
-                  f"nontrivial={len(ctx.nontrivial)}")
-            return 2
-    if lines:
+    if lines:  # a violation found is reported even if the run was otherwise too small
         for key, msg, path, cnt in lines:
             print(f"VIOLATION-DETAIL [{cnt}x] {key}: {msg}")
         for key, msg, path, cnt in lines:
             print(f"VIOLATION property={prop_id} replay={os.path.relpath(path, ROOT) if OUT == ROOT else path}")
         return 1
+    min_eval = budget.get("min_evaluations", 1)
+    min_nt = budget.get("min_nontrivial", 2)
+    if args.examples is not None or args.shards is not None:  # reduced development run
+        min_eval, min_nt = 1, 2
+    if ctx.evaluations < min_eval or len(ctx.nontrivial) < min_nt:
+        if not ctx.budget_exhausted or ctx.evaluations == 0:
+            print(f"HARNESS-ERROR property={prop_id} too few cases: evaluations={ctx.evaluations} "
+                  f"nontrivial={len(ctx.nontrivial)}")
+            return 2
     print(f"[{prop_id}] OK")
     return 0
 
